@@ -136,6 +136,22 @@ def execute(prop, case):
             py['links'] = ok
     if case.get('usage'):
         py['usageTable'] = usage_table_ok(case)
+    if rec['out'] == 'ok':
+        # the public entry points (repr(...), .print(...)) of the WBS, the task or the task list must show the very same sheet
+        import io
+        import contextlib
+        target = w if case['what'] == 'wbs' else (objs[0] if case['what'] == 'task' else objs[0].children)
+        want_target = shown if case['what'] != 'list' else list(objs[0].children)
+        try:
+            buf = io.StringIO()
+            with contextlib.redirect_stdout(buf):
+                target.print(case['fields'], case['children'], theme)
+            printed = buf.getvalue()
+            direct = _Repr.repr(want_target, case['fields'], case['children'], theme)
+            py['printEntryPoint'] = printed == direct + '\n'
+            py['reprEntryPoint'] = repr(target) == _Repr.repr(want_target)
+        except Exception:  # noqa
+            py['printEntryPoint'] = False
     rec['py'] = py
     return rec
 
